@@ -2,6 +2,7 @@ import ServlinVerif.Driver.C14
 import ServlinVerif.Driver.C20
 import ServlinVerif.Driver.C18
 import ServlinVerif.Driver.C19
+import ServlinVerif.Driver.C12
 import ServlinVerif.Driver.C11
 import ServlinVerif.Driver.C04
 import ServlinVerif.Driver.C05
@@ -56,6 +57,9 @@ def handleLine (line : String) : String :=
     | "c16a" => C16.handleAdd args obs
     | "c17" => C17.handle args obs
     | "c18" => C18.handle args obs
+    | "c12t" => C12.handleTokens args obs
+    | "c12" => C12.handleLimit args obs
+    | "c13" => C12.handleShutdown args obs
     | "c19s" => C19.handleSet args obs
     | "c19w" => C19.handleWriter args obs
     | "c20e" => C20.handleError args obs
